@@ -55,7 +55,7 @@ CLAIMED = {
              'exhaustive phase space x 4 phase_edge values x random/block masks, plus the criteria oracle on the implementation.',
         note=NOTE),
     'C14': dict(
-        technique='Coq proof (parametric in the reducing function; exact rational linear interpolation; bin membership via digitize) + differential correspondence + TRANSLATION TIE (Prop_Tie_Cyclestat.v): the bodies of get_cycle_stat, get_cycle_stat_from_samples, get_augmented_cycle_stat_from_samples, bin_by_phase (phase_align is NOT tied: its per-cycle interpolant is a local callable) are regenerated from the source on every run by a fail-closed ast translator and machine-checked refinement theorems show the hand model computes exactly what the translated program computes for every oracle behaviour',
+        technique='Coq proof (parametric in the reducing function; exact rational linear interpolation; bin membership via digitize) + differential correspondence + TRANSLATION TIE (Prop_Tie_Cyclestat.v): the bodies of get_cycle_stat, get_cycle_stat_from_samples, get_augmented_cycle_stat_from_samples, bin_by_phase; phase_align in Prop_Tie_Rest.v (the iterator object carries its mode, the interpolant call carries the local callable) are regenerated from the source on every run by a fail-closed ast translator and machine-checked refinement theorems show the hand model computes exactly what the translated program computes for every oracle behaviour',
         text='Theorems (Prop_C14.v) prove for ANY function f of any result type and ANY labelling that the per-cycle statistic is f applied '
              'to precisely the samples carrying the label and that its projection is constant on each cycle and missing elsewhere; that '
              'linear interpolation with extrapolation reproduces any quantity linear in phase exactly at every grid point for every cycle of '
@@ -123,7 +123,7 @@ CLAIMED['C03'] = dict(
     note=NOTE + ' Member decompositions, noise and the mask extraction are oracles here (C07/C08 treat them); ensembles are compared exactly with zero noise amplitude only.')
 
 CLAIMED['C09'] = dict(
-    technique='Coq proof over a Gallina model (canonical rationals, abstract period tau, oracle contracts for Hilbert/angle/abs/envelopes) of gradient / cumsum / wrap / unwrap / medfilt / freq_from_phase / phase_from_freq / frequency_transform + differential correspondence (exact on dyadic data, 1e-9 where the double 2pi enters) + pipeline trace; accuracy clause by oracle sweep only (PARTIAL) + TRANSLATION TIE (Prop_Tie_Freq.v): the bodies of frequency_transform, freq_from_phase, phase_from_freq, phase_from_complex_signal, wrap_phase, amplitude_normalise are regenerated from the source on every run by a fail-closed ast translator and machine-checked refinement theorems show the hand model computes exactly what the translated program computes for every oracle behaviour',
+    technique='Coq proof over a Gallina model (canonical rationals, abstract period tau, oracle contracts for Hilbert/angle/abs/envelopes) of gradient / cumsum / wrap / unwrap / medfilt / freq_from_phase / phase_from_freq / frequency_transform + differential correspondence (exact on dyadic data, 1e-9 where the double 2pi enters) + pipeline trace; accuracy clause by oracle sweep only (PARTIAL) + TRANSLATION TIE (Prop_Tie_Freq.v): the bodies of frequency_transform, freq_from_phase, phase_from_freq, phase_from_complex_signal, wrap_phase, amplitude_normalise; quadrature_transform in Prop_Tie_Rest.v are regenerated from the source on every run by a fail-closed ast translator and machine-checked refinement theorems show the hand model computes exactly what the translated program computes for every oracle behaviour',
     text='PARTIAL. Theorems (Prop_C09.v) prove for all inputs over exact rationals: outputs have the input\'s shape; the repaired wrap keeps phase in '
          '[0, tau) for every rounding function (and the pre-repair one is refuted with a witness); IF = (sr/tau) * gradient(U) with IP = wrap(U) for the '
          'same unwrapped U; wrap(unwrap) identity and bounded unwrap steps; median-of-5 smoothing leaves an increasing phase unchanged inside; the '
@@ -145,7 +145,7 @@ CLAIMED['C15'] = dict(
          'after every step, exactly.',
     note=NOTE + ' The pandas DataFrame is observed through columns/rows/values only; get_cycle_vector, is_good, index maps and projections are the C12/C13/C16 models. Coherence is read at selection time (a metric overwritten after a pick is not reported as stale).')
 CLAIMED['C18'] = dict(
-    technique='Coq proof over a Gallina model of SiftConfig (option tree, slash paths, YAML routes with dump/load as contract oracles) + defaults table REGENERATED from emd/sift.py on every run by a fail-closed ast translator and re-proved by computation + differential correspondence of random edit histories and both YAML routes + behavioural oracle + TRANSLATION TIE (Prop_Tie_Config.v): the bodies of eleven SiftConfig methods (item get/set/delete, key transform, both YAML routes, listify, get_func) are regenerated from the source on every run by a fail-closed ast translator and machine-checked refinement theorems show the hand model computes exactly what the translated program computes for every oracle behaviour',
+    technique='Coq proof over a Gallina model of SiftConfig (option tree, slash paths, YAML routes with dump/load as contract oracles) + defaults table REGENERATED from emd/sift.py on every run by a fail-closed ast translator and re-proved by computation + differential correspondence of random edit histories and both YAML routes + behavioural oracle + TRANSLATION TIE (Prop_Tie_Config.v): the bodies of eleven SiftConfig methods (item get/set/delete, key transform, both YAML routes, listify, get_func; get_config and _get_function_opts in Prop_Tie_Rest.v against the regenerated signature tables) are regenerated from the source on every run by a fail-closed ast translator and machine-checked refinement theorems show the hand model computes exactly what the translated program computes for every oracle behaviour',
     text='Theorems (Prop_C18.v) prove for all option trees, paths and values that slash-separated key paths read, write and delete exactly the entries '
          'nested indexing does (split/join inverse, depth beyond three levels rejected by all three methods), that a write or delete changes exactly its '
          'own entry and nothing else, that exporting keeps keys and values up to tuple/array -> list, and that both YAML routes (file, text/stream) give '
